@@ -389,6 +389,56 @@ Definition hex_to_slice (arg : N) (data : list N) : res (list Z) :=
     else vs <- hex_pairs data ;; ret (Z.of_N (nlen data / 2) :: vs)
   else Err 0.
 
+(* ---------- DataInput over a slice (src/io/data_input.rs) and the Vec<T> decoder (smart_ptr.rs) ----------
+   `read_var_int` = VarInt::read_from: at most 10 bytes, same bit arithmetic as leb_u (an 11th byte is
+   never reached by either loop on a value that would be returned), so it is leb_u on the unread bytes. *)
+Definition CHUNK : N := 65536.
+Definition PREALLOC_CAP : N := 4096.
+(* read_vec (fix 93ba69b): reserve min(len, CHUNK), then extend chunk by chunk; read_bytes checks
+   `position + buf.len() > data.len()` *)
+Fixpoint read_vec_loop (fuel : nat) (len got : N) (rest : list N) (acc : list N) : res (list N * list N) :=
+  match fuel with
+  | O => if len <=? got then ret (acc, rest) else Err 0
+  | S f =>
+      if len <=? got then ret (acc, rest) else
+      let step := N.min (len - got) CHUNK in
+      if nlen rest <? step then Err 0 else
+      read_vec_loop f len (got + step) (skipn (N.to_nat step) rest) (acc ++ firstn (N.to_nat step) rest)
+  end.
+Definition read_vec (len : N) (rest : list N) : res (list N * list N) :=
+  _ <- with_capacity (N.min len CHUNK) 1 ;;
+  read_vec_loop (N.to_nat (N.min (len / CHUNK) (nlen rest / CHUNK) + 2)) len 0 rest [].
+(* obs: position, length, first 24 bytes *)
+Definition sdi_lp_bytes (data : list N) : res (list Z) :=
+  '(len, n) <- leb_u data ;;
+  rest <- advance data n ;;
+  '(v, rest') <- read_vec len rest ;;
+  ret (Z.of_N (nlen data - nlen rest') :: Z.of_N (nlen v) :: map Z.of_N (firstn 24 v)).
+(* read_var_int; skip(n) with `n > len - position` (fix 93ba69b); read_u8 *)
+Definition sdi_skip (data : list N) : res (list Z) :=
+  '(n, k) <- leb_u data ;;
+  rest <- advance data k ;;
+  if nlen rest <? n then Err 0 else
+  match skipn (N.to_nat n) rest with
+  | [] => Err 0
+  | x :: rest' => ret [Z.of_N n; Z.of_N x; Z.of_N (nlen data - nlen rest')]
+  end.
+(* Vec<u32>::deserialize: u32 count, reserve min(count, 4096) elements (fix 129e061), then count reads *)
+Definition read_u32 (rest : list N) : res (N * list N) :=
+  match rest with
+  | a :: b :: c :: d :: rest' => ret (le32 a b c d, rest')
+  | _ => Err 0
+  end.
+Fixpoint vec_u32_loop (fuel : nat) (rest : list N) : res (list Z) :=
+  match fuel with
+  | O => ret []
+  | S f => '(v, rest') <- read_u32 rest ;; vs <- vec_u32_loop f rest' ;; ret (Z.of_N v :: vs)
+  end.
+Definition vec_u32_dec (data : list N) : res (list Z) :=
+  '(count, rest) <- read_u32 data ;;
+  _ <- with_capacity (N.min count PREALLOC_CAP) 4 ;;
+  vec_u32_loop (N.to_nat (N.min count (nlen rest / 4 + 1))) rest.
+
 (* ---------- dispatch used by the harness-generated case files ---------- *)
 Definition pairZ (r : res (Z * N)) : res (list Z) := '(v, n) <- r ;; ret [v; Z.of_N n].
 Definition as_i64_list (r : res (list Z)) : res (list Z) :=
@@ -421,6 +471,9 @@ Definition run_model (pid arg : N) (data : list N) : option (res (list Z)) :=
   | 42 => Some (delta_s_dec true data)
   | 43 => Some (as_i64_list (gv_dec true data))
   | 44 => Some (seq_dec true pf_s_elem data)
+  | 50 => Some (sdi_lp_bytes data)
+  | 51 => Some (sdi_skip data)
+  | 52 => Some (vec_u32_dec data)
   | 61 => Some (n <- lz_dec true data ;; ret [Z.of_N n])
   | 70 => Some (decode_match_top true data)
   | 71 => Some (decode_matches_m true data)
@@ -431,7 +484,7 @@ Definition run_model (pid arg : N) (data : list N) : option (res (list Z)) :=
 
 Definition model_ids : list N :=
   [1; 2; 3; 10; 11; 12; 13; 14; 15; 16; 20; 21; 22; 23; 24; 25; 26;
-   30; 31; 32; 33; 34; 35; 36; 40; 41; 42; 43; 44; 45; 46; 61; 70; 71; 80; 81].
+   30; 31; 32; 33; 34; 35; 36; 40; 41; 42; 43; 44; 45; 46; 50; 51; 52; 61; 70; 71; 80; 81].
 
 (* what the child process reported: 0 = value, 1 = error, 2 = panic / abort / timeout.
    A run whose explicit reservations exceed the child's address-space limit is expected to crash. *)
